@@ -42,6 +42,7 @@ finally:
     for p, keep in saved.items():
         shutil.move(keep, os.path.join(HERE, "evidence", p + ".json"))
     subprocess.run(["git", "-C", "/repo", "checkout", "--", "."], check=True)
+    subprocess.run(["git", "-C", "/repo", "clean", "-fdq", "src"], check=True)
     # the generated Lean modules follow /repo: put them back too, so that nothing derived from the seeded tree is left
     subprocess.run([sys.executable, "-c", "import sys; sys.path.insert(0, %r); from vlib import core; core.build_harness(); core.regen()" % HERE],
                    cwd=HERE, capture_output=True)
